@@ -13,7 +13,10 @@ interpreter under realisable schedules (every partition of the iterations over t
 enumeration reaches, every interleaving for <= 5 iterations, sampled beyond) with private copies
 poisoned, firstprivate copies initialised at region entry, and all shared variables compared with the
 serial run over a grid of stores.  Thorough tier: the OpenMP program written by FortranWriter is
-compiled with gfortran -fopenmp and run with OMP_NUM_THREADS 1..8 x static/dynamic/guided."""
+compiled with gfortran -fopenmp and run with OMP_NUM_THREADS 1..8 x static/dynamic/guided.
+Loops with array-section assignments (c(lo1:hi1, i+-d) = c(lo2:hi2, i+-e) + ...) are harness-only: MiniFortran /
+the Coq model have no sections, so they skip the model comparisons and are evaluated by the search (desugared with
+Fortran array-assignment semantics: all right-hand-side elements into temporaries, then the stores) and gfortran."""
 import itertools
 import json
 import os
@@ -249,7 +252,7 @@ class LoopGen:
 
     def assign(self, env):
         r = self.r
-        if self.sections and r.random() < 0.16:
+        if self.sections and r.random() < 0.11:
             return self.section_assign(env)
         c = r.random()
         if c < 0.55:
@@ -839,7 +842,7 @@ def run(ctx):
     rng = ctx.rng("gen")
     gen = LoopGen(rng)
     loops = [(tag, lp) for tag, lp in SHAPES]
-    for _ in range(ctx.pick(150, 1100)):
+    for _ in range(ctx.pick(170, 1100)):
         loops.append(("gen", gen.loop()))
     results = []
     for idx, (tag, lp) in enumerate(loops):
@@ -908,7 +911,7 @@ def run(ctx):
     n_infer = sum(1 for t in tags if t[0] == "JInfer")
     ctx.log("infer cases=%d differ=%d | verdict cases=%d impl-accepts-model-rejects=%d differ=%d outside-class=%d | "
             "accepted=%d gap=%d | omp_run vs Coq omp_exec: %d cases %d differ"
-            % (n_infer, len(bad_infer), len(results), len(bad_verdict), len(neq_verdict),
+            % (n_infer, len(bad_infer), sum(1 for t in tags if t[0] == "JVerdict"), len(bad_verdict), len(neq_verdict),
                len(unknown_verdict), len(acc_idx), len(unsafe), xv_n, len(xv_bad)))
     if ctx.thorough:
         ctx.notes["verdict_model_outside_class"] = len(unknown_verdict)
